@@ -28,6 +28,7 @@ MAPPINGS = {
     'ints_none': {1: 3, 2: None},
     'float_str': {0: 2.5, 2: 'a b'},
     'empty': {},
+    'zeros': {0: 0, 1: 0.0, 3: 7},     # falsy values are values, only None entries are dropped
 }
 FIELDS = ['group', 'q']
 
